@@ -552,13 +552,15 @@ def judge_main(b: Built, got: Any) -> List[Tuple[str, str]]:
     if isinstance(got, str):
         return [("C25:main:exception:" + got[6:], f"main.execute raised {got[6:]}")]
     rc, err = got
-    flat = err.replace("\n  ", "\n")  # write_error_report indents the continuation lines
+    # write_error_report indents the continuation lines (textwrap.indent splits like str.splitlines)
+    unindent = lambda x: re.sub("([\n\r\x0b\x0c\x1c\x1d\x1e\x85\u2028\u2029])  ", "\\1", x)  # noqa
+    flat = unindent(err)
     bad = []
     if offending:
         if rc != 1:
             bad.append(("C25:main:rc", f"main.execute returned {rc} although {sorted(offending)[0]!r} is offending"))
         for r, why in offending.items():
-            if r not in flat:
+            if unindent(r) not in flat:
                 bad.append(("C25:main:offender-not-named", f"stderr of main.execute does not name {r!r} ({why})"))
     elif "snippets" in err and "Failed to resolve the implementation-specific snippets" in err:
         bad.append(("C25:main:spurious-error", "main.execute reports snippet errors although no file is offending"))
